@@ -289,7 +289,9 @@ func ruleC16_4(c *Ctx) {
 	for _, pn := range []string{"in_toto", "internal/spiffe"} {
 		sp := c.pkg(pn)
 		for _, f := range c.srcFuncs(pn) {
-			if f.Parent() != nil || f.Object() == nil || !f.Object().Exported() {
+			// every function, exported or not: a helper that returns a package-level slice / map hands it to the exported
+			// function that stores it in a result object (e.g. a default list that ends up in every loaded Key)
+			if f.Name() == "init" || strings.HasPrefix(f.Name(), "init#") {
 				continue
 			}
 			n++
@@ -313,7 +315,7 @@ func ruleC16_4(c *Ctx) {
 			}
 		}
 	}
-	c.ok(R, "in_toto, internal/spiffe", "no exported function returns package-level memory (other than error sentinels)", 0, fmt.Sprintf("%d exported functions scanned", n))
+	c.ok(R, "in_toto, internal/spiffe", "no function returns package-level memory (other than error sentinels)", 0, fmt.Sprintf("%d functions scanned", n))
 }
 
 // R-C16-5: exported functions treat the memory behind their slice / map / pointer parameters as read-only. Callers
@@ -353,6 +355,7 @@ func ruleC16_5(c *Ctx) {
 		fn := fname(f)
 		a := newA4(c.Prog)
 		s := a.analyse(f, ctx, nil)
+		s = &a4Summary{results: s.results, writes: func() []a4Write { k, _ := a4FilterReviewed(s.writes); return k }(), done: true}
 		if len(s.writes) == 0 {
 			c.ok(R, fn, "parameters are read-only", f.Pos(), fmt.Sprintf("%d function contexts analysed, no write through parameter memory", len(a.memo)))
 			continue
